@@ -75,6 +75,13 @@ CANARIES = [
     ('cursor-underflow-empty-node', 'C08', 'src/cursor.rs', 'if elem.index + 1 >= page_node.len() {', 'if elem.index >= (page_node.len() - 1) {'),
     ('cursor-current-on-branch', 'C08', 'src/cursor.rs', '                if !n.leaf() {\n                    return None;\n                }\n', ''),
     ('cursor-pop-root', 'C08', 'src/cursor.rs', '                        if self.stack.len() == 1 {\n                            return None;\n                        }\n', ''),
+    ('index-no-slot-before', 'C08', 'src/page_node.rs', '                i = i.saturating_sub(1);\n', ''),
+    ('index-exact-off-by-one', 'C08', 'src/page_node.rs', '            Ok(i) => (i, true),', '            Ok(i) => (i + 1, true),'),
+    ('index-page-no-bound', 'C07', 'src/page_node.rs', '                if index >= p.count as usize {\n                    return 0;\n                }\n', ''),
+    ('insert-data-front', 'C07', 'src/node.rs', '                    Err(i) => leaves.insert(i, leaf),', '                    Err(_i) => leaves.insert(0, leaf),'),
+    ('insert-data-duplicate', 'C07', 'src/node.rs', '                    Ok(i) => leaves[i] = leaf,', '                    Ok(i) => leaves.insert(i, leaf),'),
+    ('node-delete-wrong-index', 'C07', 'src/node.rs', '            NodeData::Leaves(leaves) => leaves.remove(index),', '            NodeData::Leaves(leaves) => leaves.remove(0),'),
+    ('pagenode-len-node-zero', 'C07', 'src/page_node.rs', '            PageNode::Node(n) => n.borrow().data.len(),', '            PageNode::Node(n) => n.borrow().children.len(),'),
 ]
 
 
